@@ -889,7 +889,7 @@ func c15Config(c *runCtx) {
 		prefix := pickOne(r, []string{"git-bug", "git-bug", "git-bug.bridge.x", "git-bug.webui", "git-bug.open", "git-bug.nosuch", "nosuch", "git-bugs", "foo.Sub Section"})
 		keysOf := func() []string {
 			out, _ := gitIn(dir, "config", "--local", "--list", "--name-only")
-			var ks []string
+			ks := []string{} // (an empty list, not null, when nothing is left)
 			for _, k := range strings.Fields(strings.ReplaceAll(out, "Sub Section", "Sub\x00Section")) {
 				k = strings.ReplaceAll(k, "\x00", " ")
 				if !strings.HasPrefix(k, "core.") {
